@@ -28,6 +28,7 @@ DECIDED = [
     "DOM-1 an object that may already have a parent is detached (or the operation refused) before it is listed elsewhere",
     "DOM-2 a Section is put below a container only behind an ancestry guard",
     "IDENT-1 removal from a child list is by identity, not by deep equality",
+    "ALIAS-4 (shared with C12/C13) merge attaches fresh clones only: a source child that is attached itself would be listed under two parents",
     "WALK-1 every parent chain walk advances to the parent on every iteration and writes no parent pointer",
 ]
 NOT_DECIDED = ["identity vs deep equality in name/== based lookups (__contains__, __getitem__)", "exceptional exits (C06)",
@@ -354,6 +355,10 @@ def run(prog, rep):
                     and c.func.attr in ("remove", "index", "count", "__contains__"):
                 rep.fail("IDENT-1", "%s|super.%s" % (m.short, c.func.attr), "%s delegates to list.%s, which compares with == (deep equality)"
                          % (m.short, c.func.attr), where(m, c))
+
+    # --------------------------------------------------------------- ALIAS-4
+    from .rules_merge import merge_adds_clones
+    merge_adds_clones(prog, rep, S, "ALIAS-4")
 
     # ---------------------------------------------------------------- WALK-1
     rep.rule("WALK-1", "each `while` loop that walks the parent chain re-assigns its cursor from the cursor's own parent on every "
